@@ -119,14 +119,44 @@ class Gen:
                          "1;0;1;0;23", "a;0;1;0;23;5", "1;0;1;0;23;5;", "ÿþ", "1; ;1;0;23;5", " ", "1;0;1;0;2_3x;5"])
 
 
+HARSH_VALUES = ["a;b", "line\nbreak", "", " ", "x" * 300, "\U0001f600;", ";", "1;0;1;0;2;1", None, 3.5, True, b"b", ["l"],
+                "tr ", "\r"]
+
+
+def _prefix(drv, gen, rng, kind, flavour, hexfile):
+    """Scripted openings that establish the interesting state quickly (then the walk is random)."""
+    n = gen.nodes[0]
+    c = gen.kids[0]
+    t = rng.choice(gen.types)
+    nodever = rng.choice(["2.2.0", "2.0", "1.4", "2.1.1", "abc"])
+    lines = [f"{n};255;0;0;17;{nodever}", f"{n};{c};0;0;{rng.randint(0, 25)};child", f"{n};{c};1;0;{t};{gen.val(t)}"]
+    if kind == "sleep" and gen.is2:
+        sub = 32 if gen.v == "2.2" else 22
+        lines.append(f"{n};255;3;0;{sub};500")
+    for ln in lines:
+        drv.recv(ln + "\n")
+        if flavour == "sync":
+            while drv.gw.tasks.queue:
+                drv.pump()
+    if kind == "ota":
+        f = gen.fws[0]
+        drv.update_fw([n] + gen.nodes[1:2], f[0], f[1], hexfile)
+        gen.ota_nodes = [n]
+
+
 def run_history(rng, version, flavour, steps, *, profile=None, calls=True, persist=None, raising_cb=False,
-                pump_bias=0.7, hexfile=None, clock=True):
+                pump_bias=0.7, hexfile=None, clock=True, mqtt=False, harsh=False, prefix=None):
     """One random history on a fresh gateway; returns the trace dict."""
     interner = Interner()
-    drv = Driver(version, flavour, interner, persistence_file=persist, raising_cb=raising_cb)
+    drv = Driver(version, flavour, interner, persistence_file=persist, raising_cb=raising_cb, mqtt=mqtt)
     gen = Gen(rng, version, profile)
+    gen.ota_nodes = []
     if persist:
         drv.start_persistence()
+    if prefix == "mix":
+        prefix = rng.choice([None, "sleep", "ota", "sleep"])
+    if prefix:
+        _prefix(drv, gen, rng, prefix, flavour, hexfile)
     for _ in range(steps):
         x = rng.random()
         if flavour == "sync" and drv.gw.tasks.queue and x < pump_bias:
@@ -135,12 +165,22 @@ def run_history(rng, version, flavour, steps, *, profile=None, calls=True, persi
         x = rng.random()
         if calls and x < 0.12:
             t = gen.t()
-            drv.set_child(gen.n(), gen.c(), t, rng.choice([gen.val(t), gen.val(t), 1, 0, 57]), ack=gen.ack(),
-                          key_as_str=rng.random() < 0.2)
+            if harsh and rng.random() < 0.4:
+                value = rng.choice(HARSH_VALUES)
+                tt = rng.choice([t, t, -1, 999, "x", None, "2.5"])
+                if isinstance(tt, int):
+                    drv.set_child(gen.n(), gen.c(), tt, value, ack=gen.ack())
+                else:
+                    drv.set_child_raw(gen.n(), gen.c(), tt, value)
+            else:
+                drv.set_child(gen.n(), gen.c(), t, rng.choice([gen.val(t), gen.val(t), 1, 0, 57]), ack=gen.ack(),
+                              key_as_str=rng.random() < 0.2)
         elif calls and x < 0.16:
             f = rng.choice(gen.fws + [(7, 7)])
             nids = rng.choice([gen.n(), [gen.n(), gen.n()], [], 9])
             drv.update_fw(nids, f[0], f[1], hexfile if (hexfile and rng.random() < 0.6) else None)
+            if f in gen.fws:
+                gen.ota_nodes = (nids if isinstance(nids, list) else [nids])[:2]
         elif calls and x < 0.18:
             drv.set_metric(rng.random() < 0.5)
         elif persist and x < 0.24:
@@ -148,6 +188,14 @@ def run_history(rng, version, flavour, steps, *, profile=None, calls=True, persi
         elif persist and x < 0.27:
             drv.stop_restart()
             drv.start_persistence()
+        elif gen.ota_nodes and x < 0.45:
+            n = rng.choice(gen.ota_nodes)
+            f = rng.choice(gen.fws)
+            if rng.random() < 0.4:
+                ln = f"{n};255;4;0;0;{hexwords(f[0], rng.choice([f[1], 1]), 5, 6, 7)}"
+            else:
+                ln = f"{n};255;4;{gen.ack()};2;{hexwords(f[0], f[1], rng.choice([0, 1, 2, 12, 13, 14, 500]))}"
+            drv.recv(ln + "\n")
         else:
             now = rng.randint(0, 2000000000) if clock else None
             drv.recv(gen.line() + rng.choice(["\n", "\n", "\r\n"]), now=now)
